@@ -1,4 +1,5 @@
 import AdfObdd.ServerModel
+import AdfObdd.SearchModel
 import AdfObdd.CountModel
 import AdfObdd.NgModel
 import AdfObdd.Rebuild
@@ -212,7 +213,7 @@ def solveAdf (a : SAdf) (s : Strategy) : Except Err SRes :=
     | .stable => stableAll st n a.ac
     | .stableCountingA => countAll st n a.ac true
     | .stableCountingB => countAll st n a.ac false
-    | .stableNogood => let g := ngAll st n a.ac true; (g.1, g.2.1)
+    | .stableNogood => let g := SM.ngSearch .simple 1000000 st n a.ac true; (g.1, g.2.1)
   .ok (r.2.map (fun ac => ⟨ac, graphOf a.names r.1.nodes ac⟩))
 
 /-! ### specification-level checks -/
